@@ -81,6 +81,7 @@ static void dump_decoder_cfg(const char *pname, htp_cfg_t *cfg) {
     printf("def personality_%s_reqline : Nat := %d\n", pname,
            cfg->parse_request_line == htp_parse_request_line_generic ? 0 :
            cfg->parse_request_line == htp_parse_request_line_apache_2_2 ? 1 : 99);
+    printf("def personality_%s_lws : Nat := %d\n", pname, (int) cfg->requestline_leading_whitespace_unwanted);
     printf("def personality_%s_reqhdr : Nat := %d\n\n", pname,
            cfg->process_request_header == htp_process_request_header_generic ? 0 :
            cfg->process_request_header == htp_process_request_header_apache_2_2 ? 1 : 99);
